@@ -233,14 +233,21 @@ func (b *builder) fieldTag(t *gen.Tree, i int) reflect.StructTag {
 		} else if tagless(t, i) {
 			b.use("struct field without tag")
 			b.useIf(text[0] >= 0x80, "struct field without tag, Go name begins with a non-ASCII upper-case letter")
-			continue
+			b.useIf(isWordKey(text), "struct field without tag whose Go name spells an option word (Inline, Ignore ...)")
+			if extrasOf(t.R, i).plain() {
+				continue
+			}
+			// the name is left to the Go field name, the tag carries options only
+			b.use("tag: options without a name (the lower-cased Go field name applies)")
+			text = ""
 		}
-		p = append(p, name+":"+strconv.Quote(text))
+		b.useIf(j == b.primary && isWordKey(text), "tag: the name spells an option word (inline, ignore, replace ...)")
+		p = append(p, name+":"+strconv.Quote(b.decorate(text, t.R, i+b.rel(j))))
 	}
 	return reflect.StructTag(strings.Join(p, " "))
 }
 
-func (b *builder) inlineTag(run int, word string) reflect.StructTag {
+func (b *builder) inlineTag(r, run int, word string) reflect.StructTag {
 	var p []string
 	for j, name := range tagNames {
 		text := "," + word
@@ -252,17 +259,17 @@ func (b *builder) inlineTag(run int, word string) reflect.StructTag {
 				text = fmt.Sprintf("m%d", run)
 			}
 		}
-		p = append(p, name+":"+strconv.Quote(text))
+		p = append(p, name+":"+strconv.Quote(b.decorate(text, r, slotMember+run+b.rel(j))))
 	}
 	return reflect.StructTag(strings.Join(p, " "))
 }
 
 // alwaysInline inlines a field under every tag name that is read.
-func (b *builder) alwaysInline() reflect.StructTag {
+func (b *builder) alwaysInline(r int) reflect.StructTag {
 	var p []string
 	for j, name := range tagNames {
 		if j == b.primary || b.allTags {
-			p = append(p, name+`:",squash"`)
+			p = append(p, name+":"+strconv.Quote(b.decorate(",squash", r, slotNested+b.rel(j))))
 		}
 	}
 	return reflect.StructTag(strings.Join(p, " "))
@@ -609,6 +616,15 @@ func (b *builder) structOf(t *gen.Tree, vals []interface{}) interface{} {
 	}
 	var fields []reflect.StructField
 	var set []func(sv reflect.Value)
+	addIgnored := func() {
+		f, v := b.ignoredField(t)
+		at := len(fields)
+		fields = append(fields, f)
+		set = append(set, func(sv reflect.Value) { sv.Field(at).Set(v) })
+	}
+	if hasIgnored(t) && ignoredFront(t) {
+		addIgnored()
+	}
 	layout := layoutOf(t)
 	for run, s := range layout {
 		s := s
@@ -627,15 +643,27 @@ func (b *builder) structOf(t *gen.Tree, vals []interface{}) interface{} {
 		var member interface{}
 		switch s.kind {
 		case segStruct, segPtrStruct, segNested:
-			sv := reflect.New(reflect.StructOf(fieldsOf(s.from, s.to))).Elem()
+			inner := fieldsOf(s.from, s.to)
+			var ig reflect.Value
+			if hasIgnored(t) {
+				// (after the fields: fill addresses them by position)
+				var f reflect.StructField
+				f, ig = b.ignoredField(t)
+				inner = append(inner, f)
+				b.use("struct: ignored field in an inline struct member")
+			}
+			sv := reflect.New(reflect.StructOf(inner)).Elem()
 			fill(sv, s.from, s.to)
+			if ig.IsValid() {
+				sv.Field(len(inner) - 1).Set(ig)
+			}
 			switch s.kind {
 			case segPtrStruct:
 				p := reflect.New(sv.Type())
 				p.Elem().Set(sv)
 				member = p.Interface()
 			case segNested:
-				outer := reflect.New(reflect.StructOf([]reflect.StructField{{Name: memberPrefix[nameStyle(t.R)] + "n", Type: sv.Type(), Tag: b.alwaysInline()}})).Elem()
+				outer := reflect.New(reflect.StructOf([]reflect.StructField{{Name: memberPrefix[nameStyle(t.R)] + "n", Type: sv.Type(), Tag: b.alwaysInline(t.R)}})).Elem()
 				outer.Field(0).Set(sv)
 				member = outer.Interface()
 			default:
@@ -671,8 +699,11 @@ func (b *builder) structOf(t *gen.Tree, vals []interface{}) interface{} {
 			word = "squash"
 		}
 		at := len(fields)
-		fields = append(fields, reflect.StructField{Name: fmt.Sprintf("%s%d", memberPrefix[nameStyle(t.R)], run), Type: ft, Tag: b.inlineTag(run, word)})
+		fields = append(fields, reflect.StructField{Name: fmt.Sprintf("%s%d", memberPrefix[nameStyle(t.R)], run), Type: ft, Tag: b.inlineTag(t.R, run, word)})
 		set = append(set, func(sv reflect.Value) { sv.Field(at).Set(reflect.ValueOf(member)) })
+	}
+	if hasIgnored(t) && !ignoredFront(t) {
+		addIgnored()
 	}
 	if t.R&decoyBit != 0 {
 		fields = append(fields, b.hiddenField(t))
